@@ -232,17 +232,22 @@ func (r *Runner) builtin(ctx context.Context, pos syntax.Pos, name string, args 
 		}
 	case "echo":
 		newline, doExpand := true, false
-	echoOpts:
+		// An option word is a dash followed by one or more of "neE", like "-ne";
+		// any other word, such as "-" or "-nx", is the first operand.
 		for len(args) > 0 {
-			switch args[0] {
-			case "-n":
-				newline = false
-			case "-e":
-				doExpand = true
-			case "-E": // default, and undoes an earlier -e
-				doExpand = false
-			default:
-				break echoOpts
+			opts := args[0]
+			if len(opts) < 2 || opts[0] != '-' || strings.Trim(opts[1:], "neE") != "" {
+				break
+			}
+			for _, opt := range opts[1:] {
+				switch opt {
+				case 'n':
+					newline = false
+				case 'e':
+					doExpand = true
+				case 'E': // default, and undoes an earlier -e
+					doExpand = false
+				}
 			}
 			args = args[1:]
 		}
